@@ -406,14 +406,16 @@ def callback_operand_kind_independence(ctx):
     specs.append(("cast_expr", "cast_expr", lambda r, a, b: [mk_vt("T", False, 64), a], (1,)))
     ctx.need(len(specs) >= 20, f"only {len(specs)} callback specs")
 
-    def run(cb, mk, ca, cb_cls, positions):
-        r = Runner(idx)
+    def run(cb, mk, ca, cb_cls, positions, widths=(32, 8)):
+        # promotion_cast is evaluated for real: it hands a 32 / 64 bit operand on AS IT IS (so the callback sees the operand's own
+        # class behind it) and wraps a narrow one
+        r = Runner(idx, keep_real=("promotion_cast",))
         r.fold = False
 
         def items():
             ops = {}
             for k, c in zip(positions, (ca, cb_cls)):
-                ops[k] = r.pure(f"items[{k}]", vt=mk_vt(f"t{k}", k == positions[0], 32 if k == positions[0] else 8), cls=c)
+                ops[k] = r.pure(f"items[{k}]", vt=mk_vt(f"t{k}", k == positions[0], widths[0] if k == positions[0] else widths[1]), cls=c)
             a = ops[positions[0]]
             b = ops[positions[1]] if len(positions) > 1 else None
             return mk(r, a, b)
@@ -434,15 +436,17 @@ def callback_operand_kind_independence(ctx):
         return fi, res
 
     for key, cb, mk, positions in specs:
-        fi, base = run(cb, mk, "Pure", "Pure", positions)
-        ctx.need(base and base != {"RAISE"}, f"{key}: no translating path for plain operands")
         differing = []
-        for c in classes:
-            for pos in range(len(positions)):
-                ca, cbc = (c, "Pure") if pos == 0 else ("Pure", c)
-                _, got = run(cb, mk, ca, cbc, positions)
-                if got != base:
-                    differing.append(f"operand {positions[pos]} a {c}: {sorted(got)[:1]}")
+        base = None
+        for widths in ((32, 8), (32, 32), (64, 32)):
+            fi, base = run(cb, mk, "Pure", "Pure", positions, widths)
+            ctx.need(base and base != {"RAISE"}, f"{key}: no translating path for plain operands")
+            for c in classes:
+                for pos in range(len(positions)):
+                    ca, cbc = (c, "Pure") if pos == 0 else ("Pure", c)
+                    _, got = run(cb, mk, ca, cbc, positions, widths)
+                    if got != base:
+                        differing.append(f"operand {positions[pos]} a {c} (widths {widths}): {sorted(got)[:1]}")
         ctx.check(f"{key} treats every kind of operand alike", not differing, f"the same result as for plain operands: {sorted(base)[:1]}", "; ".join(differing[:3]) or "ok", fn_where(idx, fi))
 
 
@@ -456,3 +460,10 @@ def r02_9(ctx):
     from .c09 import folded_conditional_type
 
     folded_conditional_type(ctx)
+
+
+@rule("R02.10", "C02", "operators group as in C: precedence and associativity of the expression tower (a chain of ?: nests to the right, binary operators to the left)", min_instances=25)
+def r02_10(ctx):
+    from .c17 import r17_1
+
+    r17_1(ctx)
